@@ -185,6 +185,15 @@ func checkC07(c C07Case, o *Obs) error {
 		sort.Ints(offsets)
 		o.Class("sampled offsets (large input)")
 	}
+	if keepTempUntilBatchEnd && len(offsets) > 60 {
+		// concurrent-use stage (race detector, ten times slower): a stride through the offsets
+		stride := len(offsets)/60 + 1
+		var few []int
+		for i := c.Seed % stride; i < len(offsets); i += stride {
+			few = append(few, offsets[i])
+		}
+		offsets = few
+	}
 	// line boundaries, for classification
 	boundary := map[int]bool{0: true}
 	for i, b := range text {
